@@ -247,6 +247,10 @@ pub enum PolicyKind {
     Uniform,
     /// PCT-style: random priorities, `d` priority change points
     Pct { d: u32 },
+    /// one pause at a decision step chosen by the scenario: the first task runs until decision
+    /// `at`, is then put behind all others (which run to their end, in random priority order) and
+    /// finishes last - the shape of a check-then-act window, placed instead of hoped for
+    PauseAt { at: u32 },
     /// keep running the current task; preempt with probability num/100
     Sticky { num: u32 },
     /// no preemption, random task order
@@ -368,6 +372,16 @@ impl Sched {
         if let PolicyKind::Pct { d } = policy.kind {
             for _ in 0..d {
                 change_at.push(rng.range(1, 40) as u64);
+            }
+        }
+        if let PolicyKind::PauseAt { at } = policy.kind {
+            change_at.push(at as u64);
+            // task 0 (the one with the single looked-up-then-acted call) starts first
+            prio = (0..ntasks as i64).map(|i| if i == 0 { 1000 } else { 10 + i }).collect();
+            if ntasks > 2 {
+                let mut rest: Vec<i64> = prio[1..].to_vec();
+                rng.shuffle(&mut rest);
+                prio[1..].copy_from_slice(&rest);
             }
         }
         let yield_rng = rng.fork();
@@ -509,7 +523,7 @@ impl Sched {
         }
         let c = match st.policy.kind.clone() {
             PolicyKind::Uniform => cands[st.rng.below(cands.len())],
-            PolicyKind::Pct { .. } => {
+            PolicyKind::Pct { .. } | PolicyKind::PauseAt { .. } => {
                 let step = st.probes.decisions;
                 if st.change_at.contains(&step) {
                     if let Some(l) = st.last {
@@ -837,6 +851,12 @@ impl Sched {
             ));
         }
         st.probes.failed_try_acquisitions += 1;
+        if matches!(st.policy.kind, PolicyKind::Pct { .. } | PolicyKind::PauseAt { .. }) {
+            // a task that spins on a busy lock must not starve the holder: under the priority
+            // policies it goes behind everybody else (a real scheduler would let the holder run)
+            let low = st.prio.iter().min().copied().unwrap_or(0) - 1;
+            st.prio[tid] = low;
+        }
         st.status[tid] = Status::Yield;
         st.running = None;
         self.schedule(&mut st);
